@@ -32,6 +32,7 @@ F=[
  ("keep the space inside an index whose bracket string is wrapped", ['C01'], "`t[([[x]])]` -> `t[[[x]]]` (does not parse)"),
  ("keep the space after `[` when an index expression starts with a bracket string", ['C01'], "`t[ [[a]] .. b ]` -> `t[[[a]] .. b]` (does not parse)"),
  ("keep the semicolon after a compound assignment", ['C02','C01'], "Luau `x += y; (f)()` lost its `;` and became one statement `x += y(f)()`"),
+ ("set the error exit code where the error is logged", ['C13', 'C17'], "`STYLUA_LOG=stylua=off stylua --check missing.lua` (any error, any mode) exited 0: the exit code was a side effect of the log formatter, which is not called for a filtered message"),
  ("do not panic in the output verifier on number literals", ['C07'], "format_code(.., OutputVerification::Full) / --verify: `0xFFFFFFFFFFFFFFFFFF`, `0x1p4`, `0x.8`, LuaJIT `2i`: unreachable!() panic in verify_ast::visit_number"),
  ("keep the space inside a Luau type table indexer whose key is a bracket string", ['C01'], "Luau `type T = { [ [[x]] ]: number }` -> `{ [[[x]]]: number }` (does not parse)"),
  ("strip leading blank lines of the first statement of a block also when formatting a range", ['C09'], "`local p = 1\ndo\n\n\tlocal x = 1\nend` with a range that starts after byte 0 and contains the whole `do` statement: the blank line after `do` survives although the whole-file run removes it (the in-range test was repeated on the formatted statement, whose tokens have no positions)"),
